@@ -41,7 +41,7 @@ FAULT_KINDS = ["stale_copy_signed", "duplicate_pass", "wrong_key_pass", "db_stat
 PROBES = ["kind:p2pk", "kind:p2pkh", "kind:multisig", "kind:p2sh-multisig", "kind:p2wpkh", "kind:p2wsh-multisig",
           "kind:p2sh-p2wpkh", "kind:p2sh-p2wsh-multisig", "n>=16", "m>=10", "uncompressed_key", "hash_type_non_all",
           "anyonecanpay", "sighash_single_no_output", "partial_then_complete", "order_permutation_checked",
-          "supply_dict", "supply_wifs", "supply_keychain", "supply_keychain_hd", "backend_pure_python", "coin_bch", "coin_btg", "coin_ltc", "coin_other",
+          "supply_dict", "supply_wifs", "supply_keychain", "supply_keychain_hd", "backend_pure_python", "coin_bch", "coin_btg", "coin_ltc", "coin_other", "coin_grs_classes_direct",
           "wire_hex", "wire_bin", "wire_unspents", "txid_stable_after_witness_sign", "digest_at_seam_checked",
           "sighash_direct_256", "codeseparator_script", "noncommitted_change_still_valid", "committed_change_invalidates",
           "revalidate_fresh_equal", "inputs>=253", "spendable_form_text", "spendable_form_dict", "spendable_form_bin", "wire_big_inputs", "wire_big_outputs",
@@ -89,8 +89,8 @@ def _mn(r, kind):
 def gen_plan(rng, tier, index, config=None):
     r = rng.fork("ops")
     net = config or r.weighted([("BTC", 50), ("XTN", 8), ("LTC", 10), ("BCH", 10), ("BTG", 10), ("DOGE", 4), ("DASH", 4),
-                                ("MONA", 4)])
-    sigkind = {"BCH": "bch", "BTG": "btg"}.get(net, "btc")
+                                ("MONA", 4), ("GRS", 8)])
+    sigkind = {"BCH": "bch", "BTG": "btg", "GRS": "grs"}.get(net, "btc")
     nkeys = r.between(3, 8)
     hd = None
     if r.chance(0.3):
@@ -119,7 +119,7 @@ def gen_plan(rng, tier, index, config=None):
     nin = r.weighted([(1, 5), (2, 4), (3, 2), (4, 1)])
     inputs = []
     for _ in range(nin):
-        kinds = KINDS if sigkind == "btc" and net not in ("DOGE", "DASH") else KINDS[:4]
+        kinds = KINDS if sigkind in ("btc", "grs") and net not in ("DOGE", "DASH") else KINDS[:4]
         kind = r.pick(kinds)
         m, n = _mn(r, kind)
         while len(keys) < n:
@@ -187,7 +187,7 @@ def gen_plan(rng, tier, index, config=None):
         elif op == "validate":
             steps.append({"op": "validate", "copy": cp, "how": r.pick(["each", "each", "count", "check_solution"])})
         elif op == "tamper":
-            forkcoin = sigkind != "btc"
+            forkcoin = sigkind in ("bch", "btg")
             kind = r.weighted([("version", 2), ("locktime", 2), ("outpoint", 2), ("sequence", 2), ("out_value", 3),
                                ("out_script", 2), ("out_add", 1), ("out_remove", 1), ("out_swap", 1), ("in_remove", 1),
                                ("in_swap", 1), ("unlock_swap", 1), ("unspent_value", 3), ("unspent_script", 2),
@@ -220,6 +220,12 @@ def gen_plan(rng, tier, index, config=None):
             steps.append({"op": "permute", "passes": passes, "perm": perm})
     steps.append({"op": "validate", "copy": "c0", "how": "each"})
     backend = "pure" if (config is None and sigkind == "btc" and hd is None and r.chance(0.03)) else "native"
+    if net == "GRS":
+        # the GRS network object needs the groestlcoin_hash package (absent here); its Tx / Solver / SolutionChecker
+        # classes do not: the world drives them directly and takes key utilities from the BTC network object
+        for st in steps:
+            if st.get("op") == "sign" and st.get("supply") == "keychain_hd":
+                st["supply"] = "keychain"
     if backend == "pure":
         # the pure-Python generator costs ~50 ms per multiplication: keep the history short and dictionary-supplied
         steps = [st for st in steps if st.get("op") in ("build", "sign", "validate", "tamper", "revert")][:7]
@@ -319,9 +325,22 @@ def execute(plan, ctx):
     from pycoin.coins.bitcoin.VM import BitcoinVM
     cfg = plan["config"]
     W = _W()
-    W.net = network_for_netcode(cfg["network"])
-    W.Tx = W.net.tx
+    if cfg["network"] == "GRS":
+        from pycoin.coins.groestlcoin.Tx import Tx as GrsTx
+        W.net = network_for_netcode("BTC")
+        W.Tx = GrsTx
+        ctx.probe("coin_grs_classes_direct")
+    else:
+        W.net = network_for_netcode(cfg["network"])
+        W.Tx = W.net.tx
     W.sig = cfg["sig"]
+    W.forkid = cfg["sig"] in ("bch", "btg")
+    W.single = cfg["sig"] == "grs"
+    if W.single:
+        W.txid = lambda m: hashlib.sha256(mw.enc_tx(m, witness=False)).digest()
+        W.wtxid = lambda m: hashlib.sha256(mw.enc_tx(m, witness=True)).digest()
+    else:
+        W.txid, W.wtxid = mw.txid, mw.wtxid
     W.coin = {"sig": cfg["sig"]}
     W.keys = []
     for k in cfg["keys"]:
@@ -336,7 +355,7 @@ def execute(plan, ctx):
         ctx.probe("coin_btg")
     elif cfg["network"] == "LTC":
         ctx.probe("coin_ltc")
-    elif cfg["network"] not in ("BTC", "XTN"):
+    elif cfg["network"] not in ("BTC", "XTN", "GRS"):
         ctx.probe("coin_other")
     # the VM -> ECDSA seam
     real_gen = BitcoinVM.generator_for_signature_type(1)
@@ -456,17 +475,17 @@ def _expected_digests(W, cp, j):
         if len(it) < 9:
             continue
         ht = it[-1]
-        if W.sig != "btc":
+        if W.forkid:
             if ht & sh.FORKID:
                 out.add(sh.bip143(cp.m, j, sc, u["value"], ht, forkid=79 if W.sig == "btg" else None))
         elif witness:
-            out.add(sh.bip143(cp.m, j, sc, u["value"], ht))
+            out.add(sh.bip143(cp.m, j, sc, u["value"], ht, single_sha=W.single))
         else:
             s2 = sc
             for other in cand:
                 s2 = sh.find_and_delete(s2, other) if len(other) >= 9 else s2
-            out.add(sh.legacy(cp.m, j, s2, ht))
-            out.add(sh.legacy(cp.m, j, sh.find_and_delete(sc, it), ht))
+            out.add(sh.legacy(cp.m, j, s2, ht, single_sha=W.single))
+            out.add(sh.legacy(cp.m, j, sh.find_and_delete(sc, it), ht, single_sha=W.single))
     return out
 
 
@@ -511,7 +530,7 @@ def _op_build(ctx, W, st):
         raise Abort()
     W.copies[st["copy"]] = _Copy(tx, m, unspents)
     W.copies[st["copy"]].specs = [dict(x) for x in st["inputs"]]
-    ctx.obs("build", mw.txid_hex(m))
+    ctx.obs("build", W.txid(m)[::-1].hex())
 
 
 def _key_material(W, ks):
@@ -658,7 +677,7 @@ def _op_sign(ctx, W, st):
     # digests that crossed the seam while signing: each must be the model digest for some asked input
     if W.rec.signed and all(u is not None for u in before_u):
         legit = set()
-        ht_eff = ht_req | (sh.FORKID if W.sig != "btc" else 0)
+        ht_eff = ht_req | (sh.FORKID if W.forkid else 0)
         known = True
         for j in asked:
             # the transaction the signer saw is the one before this pass, but other inputs' unlocking data is
@@ -724,24 +743,24 @@ def _op_sign(ctx, W, st):
             if len(sig) < 9 or sig[0] != 0x30 or sig == PLACEHOLDER:
                 continue
             rs = sv.strict_der(sig)
-            ht_eff = ht_req | (sh.FORKID if W.sig != "btc" else 0)
+            ht_eff = ht_req | (sh.FORKID if W.forkid else 0)
             if rs is None or rs[1] > sv.HALF_N or sig[-1] != ht_eff:
                 ctx.violate("C05", "non-canonical-signature-written", {"input": j, "sig": sig.hex(), "requested_hash_type": ht_eff})
                 break
     # pycoin's own verdict must agree with the model on the signed copy
     _compare_verdicts(ctx, W, cp, after_v, "after-sign")
     # witness-only steps never change the txid
-    if mw.txid(before_m) != mw.txid(m2):
+    if W.txid(before_m) != W.txid(m2):
         wit_only = all(a["script"] == b["script"] for a, b in zip(before_m["ins"], m2["ins"]))
         if wit_only:
             ctx.violate("C07", "txid-depends-on-witness", {})
     else:
         if any(a["witness"] != b["witness"] for a, b in zip(before_m["ins"], m2["ins"])):
             try:
-                if cp.obj.id() == mw.txid_hex(m2) and cp.obj.w_id() == mw.wtxid(m2)[::-1].hex():
+                if cp.obj.id() == W.txid(m2)[::-1].hex() and cp.obj.w_id() == W.wtxid(m2)[::-1].hex():
                     ctx.probe("txid_stable_after_witness_sign")
                 else:
-                    ctx.violate("C07", "tx-id", {"id": cp.obj.id(), "expected": mw.txid_hex(m2)})
+                    ctx.violate("C07", "tx-id", {"id": cp.obj.id(), "expected": W.txid(m2)[::-1].hex()})
             except Exception as e:
                 ctx.violate("C07", "tx-id-raised", {"exc": type(e).__name__})
 
@@ -758,7 +777,7 @@ def _sign_digests(W, cp, j, ht):
     spk, red, ws = _puzzle(W, spec)
     if u["script"] != spk:
         return None
-    if W.sig != "btc":
+    if W.forkid:
         sc = red if red is not None else spk
         if ht & sh.FORKID:
             out.add(sh.bip143(cp.m, j, sc, u["value"], ht, forkid=79 if W.sig == "btg" else None))
@@ -766,20 +785,20 @@ def _sign_digests(W, cp, j, ht):
     k = spec["kind"]
     if k in ("p2wpkh", "p2sh-p2wpkh"):
         h = sv.hash160(_sec(W, spec["keys"][0]))
-        out.add(sh.bip143(cp.m, j, sv.p2pkh(h), u["value"], ht))
+        out.add(sh.bip143(cp.m, j, sv.p2pkh(h), u["value"], ht, single_sha=W.single))
     elif k in ("p2wsh-multisig", "p2sh-p2wsh-multisig"):
-        out.add(sh.bip143(cp.m, j, ws, u["value"], ht))
+        out.add(sh.bip143(cp.m, j, ws, u["value"], ht, single_sha=W.single))
     elif k == "p2sh-multisig":
-        out.add(sh.legacy(cp.m, j, red, ht))
+        out.add(sh.legacy(cp.m, j, red, ht, single_sha=W.single))
     else:
-        out.add(sh.legacy(cp.m, j, spk, ht))
+        out.add(sh.legacy(cp.m, j, spk, ht, single_sha=W.single))
     return out
 
 
 def _compare_verdicts(ctx, W, cp, verdicts, when):
     tx = cp.obj
     flags = std_flags()
-    if W.sig != "btc":
+    if W.forkid:
         from pycoin.satoshi import flags as F
         flags &= ~F.VERIFY_STRICTENC
     for j, v in enumerate(verdicts):
@@ -820,7 +839,7 @@ def _op_validate(ctx, W, st):
     _compare_verdicts(ctx, W, cp, verdicts, "validate")
     how = st.get("how", "each")
     flags = std_flags()
-    if W.sig != "btc":
+    if W.forkid:
         from pycoin.satoshi import flags as F
         flags &= ~F.VERIFY_STRICTENC
     if how == "count" and all(v.valid is not None for v in verdicts):
@@ -919,8 +938,8 @@ def _op_send(ctx, W, st):
         # zero-valued spent outputs do not survive the extension by design; the statement says non-zero
         if all(u["value"] != 0 for u in cp.u) and gu != cp.u:
             ctx.violate("C07", "unspents-extension-roundtrip", {"enc": enc})
-    if ids[0] != mw.txid_hex(cp.m) or ids[1] != ids[0] or ids[2] != mw.wtxid(cp.m)[::-1].hex() or ids[3] != mw.txid(cp.m):
-        ctx.violate("C07", "tx-id", {"id": ids[0], "expected": mw.txid_hex(cp.m), "w_id": ids[2]})
+    if ids[0] != W.txid(cp.m)[::-1].hex() or ids[1] != ids[0] or ids[2] != W.wtxid(cp.m)[::-1].hex() or ids[3] != W.txid(cp.m):
+        ctx.violate("C07", "tx-id", {"id": ids[0], "expected": W.txid(cp.m)[::-1].hex(), "w_id": ids[2]})
     ext_ok = with_u and all(u["value"] != 0 for u in cp.u) and gu == cp.u
     n = _Copy(got, gm, copy.deepcopy(cp.u))
     if not ext_ok:
@@ -1158,8 +1177,8 @@ def _op_sighash(ctx, W, st):
             got = sc._signature_hash(script, idx, ht)
         except Exception as e:
             got = ("raised", type(e).__name__)
-        if W.sig == "btc":
-            exp = sh.legacy(cp.m, idx, script, ht)
+        if not W.forkid:
+            exp = sh.legacy(cp.m, idx, script, ht, single_sha=W.single)
         elif not ht & sh.FORKID:
             exp = "refused"
         elif value is None:
@@ -1179,13 +1198,13 @@ def _op_sighash(ctx, W, st):
                 got = sc._signature_for_hash_type_segwit(script, idx, ht)
             except Exception as e:
                 got = ("raised", type(e).__name__)
-            exp = sh.bip143(cp.m, idx, script, value, ht, forkid=79 if W.sig == "btg" else None)
+            exp = sh.bip143(cp.m, idx, script, value, ht, forkid=79 if W.sig == "btg" else None, single_sha=W.single)
             if got != exp:
                 ctx.violate("C04", "signature-hash-bip143-entry", {"hash_type": ht, "input": idx,
                                                                    "got": got if isinstance(got, tuple) else "%064x" % got, "expected": "%064x" % exp})
                 break
     # the closure the VM calls: code after the last executed OP_CODESEPARATOR, signature pushes removed
-    if W.sig == "btc":
+    if not W.forkid:
         class _VM(object):
             pass
         vm = _VM()
@@ -1195,7 +1214,7 @@ def _op_sighash(ctx, W, st):
         vm.begin_code_hash = 2
         try:
             got = sc._make_sighash_f(idx)(st["ht"], [sig], vm)
-            exp = sh.legacy(cp.m, idx, sh.find_and_delete(full, sig), st["ht"])
+            exp = sh.legacy(cp.m, idx, sh.find_and_delete(full, sig), st["ht"], single_sha=W.single)
             if got != exp:
                 ctx.violate("C04", "signature-hash-closure", {"hash_type": st["ht"], "input": idx})
         except Exception as e:
@@ -1234,8 +1253,8 @@ def _op_readonly(ctx, W, st):
     ctx.obs("readonly", r[0])
     if before != after:
         ctx.violate("C04", "readonly-op-modified-transaction", {})
-    if r[0] != mw.txid_hex(cp.m) or r[1] != mw.wtxid(cp.m)[::-1].hex():
-        ctx.violate("C07", "tx-id", {"id": r[0], "expected": mw.txid_hex(cp.m)})
+    if r[0] != W.txid(cp.m)[::-1].hex() or r[1] != W.wtxid(cp.m)[::-1].hex():
+        ctx.violate("C07", "tx-id", {"id": r[0], "expected": W.txid(cp.m)[::-1].hex()})
 
 
 def _op_spendables(ctx, W, st):
@@ -1331,8 +1350,8 @@ def _op_wire_big(ctx, W, st):
         ctx.violate("C07", "reserialisation-differs", {"enc": "big:" + what, "n": n})
     if mw.tx_from_pycoin(back) != m:
         ctx.violate("C07", "parsed-fields-differ", {"enc": "big:" + what, "n": n})
-    if ids != (mw.txid_hex(m), mw.wtxid(m)[::-1].hex()):
-        ctx.violate("C07", "tx-id", {"id": ids[0], "expected": mw.txid_hex(m)})
+    if ids != (W.txid(m)[::-1].hex(), W.wtxid(m)[::-1].hex()):
+        ctx.violate("C07", "tx-id", {"id": ids[0], "expected": W.txid(m)[::-1].hex()})
 
 
 def _op_wire_tx(ctx, W, st):
@@ -1374,8 +1393,8 @@ def _op_wire_tx(ctx, W, st):
             ctx.violate("C07", "parsed-fields-differ", {"enc": "tx:" + name,
                                                         "witness_sent": [[len(w) for w in i["witness"]] for i in m["ins"]]})
             break
-    if ids != (mw.txid_hex(m), mw.wtxid(m)[::-1].hex(), mw.txid_hex(m), mw.wtxid(m)[::-1].hex(), mw.txid(m), mw.wtxid(m)):
-        ctx.violate("C07", "tx-id", {"id": ids[0], "expected": mw.txid_hex(m), "w_id": ids[1], "expected_w_id": mw.wtxid(m)[::-1].hex()})
+    if ids != (W.txid(m)[::-1].hex(), W.wtxid(m)[::-1].hex(), W.txid(m)[::-1].hex(), W.wtxid(m)[::-1].hex(), W.txid(m), W.wtxid(m)):
+        ctx.violate("C07", "tx-id", {"id": ids[0], "expected": W.txid(m)[::-1].hex(), "w_id": ids[1], "expected_w_id": W.wtxid(m)[::-1].hex()})
 
 
 def _op_permute(ctx, W, st):
